@@ -2,6 +2,6 @@ SPECIFICATION Spec
 CONSTANTS
   MaxSteps = 7
   Variant = "asWritten"
-  Codes = {101, 103, 200, 404}
-INVARIANTS FreshAfterReset CodeOK LastWins
+  Codes = {101, 103, 404}
+INVARIANTS FreshAfterReset HijackReaches CodeOK LastWins
 CHECK_DEADLOCK FALSE
